@@ -19,4 +19,11 @@ package format
 
 //@ func (*Header).Marshal(h, w) (err)
 //@   ensures#out err == nil ==> w.$out == cat(old(w.$out), hdrbytes(h), " ", b64raw(bytes(h.MAC)), "\n")   [C03 C05 C07]
-//@   modifies w.$out
+//@   ensures#count $hmarshal == old($hmarshal) + 1
+//@   modifies w.$out, $hmarshal
+
+//@ func DecodeString(s) (b, err)
+//@   ensures#canon err == nil <==> b64rawok(s)                                          [C07]
+//@   ensures#val err == nil ==> bytes(b) == unb64raw(s)                                 [C07]
+//@   fresh b when err == nil && len(b) > 0
+//@   modifies nothing
